@@ -255,10 +255,18 @@ func (r *reader) GetByTime(ts int64, tctx int64) (message.Message, error) {
 }
 
 func (r *reader) Stat() (segment.Stats, error) {
+	// the index file is rebuilt lazily, make sure it exists before reading it
+	if _, err := r.getIndexMarked(); err != nil {
+		return segment.Stats{}, err
+	}
 	return r.segment.Stat(r.params)
 }
 
 func (r *reader) Backup(dir string) error {
+	// the index file is rebuilt lazily, make sure it exists before copying it
+	if _, err := r.getIndexMarked(); err != nil {
+		return err
+	}
 	return r.segment.Backup(dir)
 }
 
